@@ -9,7 +9,13 @@ use crate::run::{panic_site, run_query, End};
 use serde_json::{json, Value};
 use std::collections::BTreeMap;
 
-const VALUES: [i64; 4] = [-2, 0, 1, 3];
+fn values(quick: bool) -> Vec<i64> {
+    if quick {
+        vec![-2, 0, 1, 3]
+    } else {
+        vec![-3, -2, 0, 1, 2, 6]
+    }
+}
 
 #[derive(Clone, Debug)]
 struct Con {
@@ -110,7 +116,7 @@ struct CaseZ {
 fn cases(quick: bool) -> Vec<CaseZ> {
     let vars = [T::V(0), T::V(1), T::V(2)];
     let mut operand_choices: Vec<T> = vars.to_vec();
-    for v in VALUES {
+    for v in values(quick) {
         operand_choices.push(T::I(v));
     }
     let mut out = vec![];
@@ -132,7 +138,7 @@ fn cases(quick: bool) -> Vec<CaseZ> {
             let aliased = pat.iter().filter(|t| t.is_var()).count() > used.len();
             // groundness patterns: each used variable unbound or bound to one of the values
             let mut opts: Vec<Option<i64>> = vec![None];
-            opts.extend(VALUES.iter().map(|v| Some(*v)));
+            opts.extend(values(quick).iter().map(|v| Some(*v)));
             let vals: Vec<Option<i64>> = if quick { vec![None, Some(-2), Some(0), Some(3)] } else { opts };
             for asg in crate::e4::product(&vals, used.len()) {
                 let mut stmts: Vec<G> = vec![goal_of(&con)];
@@ -339,5 +345,5 @@ pub fn run(ctx: &mut Ctx) {
     for k in ["fails", "binds-third", "stays-constrained", "succeeds"] {
         ctx.require_nonzero(k);
     }
-    ctx.assume("values in {-2, 0, 1, 3}; with the same variable in two operand positions and fewer than two positions ground only soundness is judged");
+    ctx.assume("values in {-2, 0, 1, 3} (thorough: {-3, -2, 0, 1, 2, 6}); with the same variable in two operand positions and fewer than two positions ground only soundness is judged");
 }
